@@ -198,27 +198,31 @@ def eval_tt(node, E):
 
 
 def eval_dense(node, E):
+    """Dense mirror of eval_tt.  With E.absmode the same expression is evaluated WITHOUT cancellation (all leaves and constants replaced by
+    their absolute values by the caller, subtraction turned into addition): an upper bound on the size of every intermediate term, which
+    is what roundoff is relative to."""
     op = node[0]
     T = lambda k: eval_dense(node[k], E)
     N, d = E.N, len(E.N)
+    ab = getattr(E, 'absmode', False)
     if op == 'leaf':
         return E.dn[node[1]]
     if op == 'add':
         return T(1) + T(2)
     if op == 'sub':
-        return T(1) - T(2)
+        return T(1) + T(2) if ab else T(1) - T(2)
     if op == 'mul':
         return T(1) * T(2)
     if op in ('smul', 'rsmul'):
-        return T(1) * node[2]
+        return T(1) * (abs(node[2]) if ab else node[2])
     if op == 'sadd':
-        return T(1) + node[2]
+        return T(1) + (abs(node[2]) if ab else node[2])
     if op == 'rsub':
-        return node[2] - T(1)
+        return abs(node[2]) + T(1) if ab else node[2] - T(1)
     if op == 'sdiv':
-        return T(1) / node[2]
+        return T(1) / (abs(node[2]) if ab else node[2])
     if op == 'neg':
-        return -T(1)
+        return T(1) if ab else -T(1)
     if op == 'pos':
         return T(1)
     if op == 'matvec':
@@ -229,7 +233,7 @@ def eval_dense(node, E):
         k = node[2]
         return torch.tensordot(T(1), E.Q[k], dims=([k], [1])).movedim(-1, k)
     if op == 'padslice':
-        return T(1)
+        return T(1) + 1.0 if ab else T(1)      # the library forms x + 0.5 - 0.5 inside the block
     if op == 'catslice':
         return T(2) + T(1)
     if op == 'bcastmul':
@@ -237,11 +241,11 @@ def eval_dense(node, E):
     if op in ('tsadd', 'tsradd'):
         return T(1) + eval_dense(node[2], E)
     if op == 'tssub':
-        return T(1) - eval_dense(node[2], E)
+        return T(1) + eval_dense(node[2], E) if ab else T(1) - eval_dense(node[2], E)
     if op == 'tsmul':
         return T(1) * (eval_dense(node[2], E) * 0.1 + 1.5)
     if op == 'tsdiv':
-        return T(1) / (eval_dense(node[2], E) ** 2 + 2.0)
+        return T(1) / 2.0 * (1.0 + eval_dense(node[2], E) ** 2) if ab else T(1) / (eval_dense(node[2], E) ** 2 + 2.0)
     if op == 'sum':
         return T(1).sum()
     if op == 'sumk':
@@ -274,7 +278,7 @@ def eval_dense(node, E):
         return (E.dn_u * T(1) * E.dn_u2).sum()
     if op == 'opfull':
         A = E.dn['A']
-        return ((A + A * 0.5 - 0.25 * A) * E.WA).sum() + (A * A).sum()
+        return ((A + A * 0.5 + 0.25 * A) * E.WA).sum() + (A * A).sum() if ab else ((A + A * 0.5 - 0.25 * A) * E.WA).sum() + (A * A).sum()
     if op == 'optfull':
         A = E.dn['A']
         return (A.permute(list(range(d, 2 * d)) + list(range(d))) * E.WA).sum() + (A ** 2).sum()
@@ -393,9 +397,23 @@ def run_case(case, ctx):
         val = torch.as_tensor(val, dtype=dt)
     val = val.reshape(()) if val.numel() == 1 else val
     ref = eval_dense(case['expr'], E)
-    # value agreement first (a wrong value makes the gradient comparison meaningless)
-    # 1e-6 relative (+1e-6 absolute): sqrt-type nodes amplify roundoff near zero (norm of an exactly cancelling tensor is ~1e-8, not 0)
-    if abs(float(val.detach()) - float(ref.detach())) > 1e-6 * (min(1.0, mag) ** 2 + abs(float(ref.detach()))):
+    # roundoff is relative to the size of the terms that are added up, not to the (possibly cancelling) result: evaluate the same dense
+    # expression without cancellation (absolute values everywhere, '-' -> '+') to get that size and its derivative w.r.t. every leaf
+    EA = Env()
+    EA.__dict__.update(E.__dict__)
+    EA.absmode = True
+    aleaf = {k2: [c.detach().abs().clone().requires_grad_(True) for c in v] for k2, v in leaf.items()}
+    EA.dn = {k2: contract(v) for k2, v in aleaf.items()}
+    for nm in ('W', 'W2', 'WA', 'Xd', 'w', 'Wn', 'dn_v', 'dn_u', 'dn_u2'):
+        setattr(EA, nm, getattr(E, nm).abs())
+    EA.Q = [q.abs() for q in E.Q]
+    EA.dn_sub = {k2: v.abs() for k2, v in E.dn_sub.items()}
+    S_abs = eval_dense(case['expr'], EA)
+    U = 2.3e-16
+    # value agreement first (a wrong value makes the gradient comparison meaningless); sqrt-type nodes amplify roundoff near zero
+    # (the norm of an exactly cancelling tensor is sqrt(roundoff)), hence the additional sqrt term
+    vfloor = 1e4 * U * float(S_abs.detach()) + (1e-7 * float(S_abs.detach()) if _has_sqrt(case['expr']) else 0.0)
+    if abs(float(val.detach()) - float(ref.detach())) > 1e-6 * abs(float(ref.detach())) + vfloor:
         ctx.viol('expr/%s/clause=value' % _top(case['expr']), '%s: TT value %r, dense value %r' % (what, float(val.detach()), float(ref.detach())))
         return
     names = [k for k in 'abcA' if k in tracked]
@@ -462,6 +480,9 @@ def run_case(case, ctx):
     if abs(fd - dd) > 1e-5 * scale + 1e-7:
         ctx.count('reference_disagreement(skipped)')
         return
+    agrads = torch.autograd.grad(S_abs, [aleaf[nme][i] for (nme, i) in wanted], allow_unused=True) if S_abs.requires_grad else [None] * len(wanted)
+    gfloor = {w_: (1e4 * U * dn.fro(ag) if ag is not None else 0.0) for w_, ag in zip(wanted, agrads)}
+    sq = _has_sqrt(case['expr'])
     nz = False
     for (nme, i), gr in zip(wanted, rgrads):
         gg = got.get((nme, i))
@@ -480,7 +501,9 @@ def run_case(case, ctx):
         err = dn.fro(gg - gref)
         sc = max(dn.fro(gref), 1e-12)
         ctx.metric('grad_rel_err', err / sc if influences else 0.0)
-        if err > RTOL * sc + 1e-10:
+        if sq and not dn.fro(gref) > 1e-3 * (gfloor[(nme, i)] / (1e4 * U) if gfloor[(nme, i)] else 0.0):
+            continue        # gradient through a sqrt whose argument (nearly) cancels: not differentiable in floating point
+        if err > RTOL * sc + gfloor[(nme, i)]:
             ctx.viol(key + '/clause=grad-value', '%s: core %d of %s: ||g-gref||=%.3e, ||gref||=%.3e' % (what, i, nme, err, sc))
         if influences:
             nz = True
@@ -490,6 +513,10 @@ def run_case(case, ctx):
                 ctx.viol('tracked-core/clause=%s' % ('lost-requires_grad' if not c.requires_grad else 'written-in-place'), '%s: core %d of %s' % (what, j, nme))
     if nz:
         ctx.nontrivial((str(case['expr']), tuple(N), str(sorted(tracked.items())), api))
+
+
+def _has_sqrt(node):
+    return node[0] == 'norm' or any(_has_sqrt(ch) for ch in node[1:] if isinstance(ch, list) and ch and isinstance(ch[0], str))
 
 
 def _top(node):
